@@ -96,6 +96,15 @@ def run(out: common.Outcome):
                 out.report({"kind": "warning-instance-became-string"}, {"job": j, "handled": h}, j)
         elif rm != ["str", r["data"][0]]:
             out.report({"kind": "warning-text-changed"}, {"job": j, "handled": h}, j)
+        # same category whenever the warning arrives in its own form (the generic form permitted for an object that
+        # cannot be rebuilt is only required to carry class name and text)
+        want_cat = None
+        if j["msg"][0] == "inst":
+            want_cat = j["cat"] or [j["msg"][1], j["msg"][2]]
+        elif j["cat"]:
+            want_cat = j["cat"]
+        if want_cat and (want_cat[0] in ("builtins", "warnings") or (j["importable"] and j["has_attr"])) and rm[0] != "generic" and rc != want_cat:
+            out.report({"kind": "warning-category-changed"}, {"job": j, "handled": h, "expected_category": want_cat}, j)
         if r["result"][0] == "ok" and h != r["result"]:
             out.report({"kind": "handler-differs-from-function-on-success"}, {"job": j, "handled": h, "direct": r["result"]}, j)
     corr.compare("serialize/unserialize_warning_message", "warn", inputs, obs,
